@@ -1,32 +1,26 @@
 package c16
 
 import (
+	"crypto/x509"
 	"fmt"
 	"testing"
-	"time"
 
 	"verifh/mon"
 )
 
-func TestDbgTiming(t *testing.T) {
+func TestDbgSha1(t *testing.T) {
 	w, err := getWorld()
 	if err != nil {
 		t.Fatal(err)
 	}
-	x := &mon.Ctx{Prop: "C16", Workload: "c16.signed.alter", Seed: 1, Tier: "quick", Shards: 1, Only: -1}
+	x := &mon.Ctx{Prop: "C16", Workload: "dbg", Seed: 1, Tier: "quick", Shards: 1, Only: -1}
 	x.Open("/tmp/c16/dbg.jsonl", "")
-	for i := 0; i < 30; i++ {
-		c := x.Begin("dbg")
-		lens := sweepLens
-		s := genSigned(c.R, i, lens)
-		b, err := buildSigned(c, w, s)
-		if err != nil {
-			t.Fatal(err)
-		}
-		t0 := time.Now()
-		sweepSigned(c, b)
-		d := time.Since(t0)
-		fmt.Printf("%3d %6.2fs %5d bytes %6.1f us/mutant  %v\n", i, d.Seconds(), len(b.der), float64(d.Microseconds())/float64(4*len(b.der)), s)
-		c.End()
+	c := x.Begin("dbg")
+	s := signedSpec{api: "pkcs7", n: 5, vpath: "chain", signers: []signerSpec{{kind: kRSA1024a, iss: iRSARoot, digest: "sha1"}}}
+	b, err := buildSignedWith(c, w, s, func(int) eeOpt { return eeOpt{sigAlg: x509.SHA1WithRSA} })
+	fmt.Println("build:", err)
+	if err == nil {
+		_, err = b.verify(b.der)
+		fmt.Println("verify:", err, b.ees[0].cert.SignatureAlgorithm)
 	}
 }
